@@ -91,12 +91,24 @@ func (t *Transaction) Transact(operations ...ovsdb.Operation) ([]*ovsdb.Operatio
 			r = t.Wait(op.Table, op.Timeout, op.Where, op.Columns, op.Until, op.Rows)
 		case ovsdb.OperationCommit:
 			durable := op.Durable
+			if durable == nil {
+				r = ovsdb.ResultFromError(fmt.Errorf("commit operation requires the durable member"))
+				break
+			}
 			r = t.Commit(*durable)
 		case ovsdb.OperationAbort:
 			r = t.Abort()
 		case ovsdb.OperationComment:
+			if op.Comment == nil {
+				r = ovsdb.ResultFromError(fmt.Errorf("comment operation requires the comment member"))
+				break
+			}
 			r = t.Comment(*op.Comment)
 		case ovsdb.OperationAssert:
+			if op.Lock == nil {
+				r = ovsdb.ResultFromError(fmt.Errorf("assert operation requires the lock member"))
+				break
+			}
 			r = t.Assert(*op.Lock)
 		default:
 			r = ovsdb.ResultFromError(&ovsdb.NotSupported{})
